@@ -71,7 +71,7 @@ pub open spec fn consts_match<B: BlockProvider, N: NotificationService, P: Payme
       final(w).released && final(w).resolved is Some
 //@ ensures#inv [C08]
       inv(*final(w))
-//@ ensures#no_rpc_under_lock [C14]
+//@ ensures#no_rpc_under_lock [C14,C06]
       !final(w).rpc_under_lock
 //@ ensures#paid_invoice_is_never_paid_again [C05]
       store_of(*old(w)) is Succeeded ==> !final(w).attempted
